@@ -12,11 +12,12 @@ MODULES = ['Netpoll.Props.C12']
 MANIFEST = dict(
     text='Lean 4 theorems over the sequential post-close model of every Connection/Reader/Writer method (all buffer states, sizes and arguments): Writer calls and short reads return the close error '
          '(ErrConnClosed locally, an error matching ErrEOF and ErrConnClosed after a peer close), buffered bytes stay readable, nothing blocks or dereferences a recycled buffer, Close is idempotent. '
-         'The model is compared with the real code on the COMPLETE table of the property (close mode x callbacks x input x output x slot reuse x method x argument x repetition) on every run; '
+         'The model is compared with the real code on the COMPLETE table of the property (close mode x callbacks x input x output x slot reuse x method x argument x repetition) on every run - the close modes include those that go through an OnRequest HANDLER task: the handler calls Close and returns / calls Close and then panics, the peer closes while the handler runs and it returns / then panics, the handler panics on the active connection; Close and Detach are both among the calls made afterwards; '
          'the property oracle judges the implementation\'s own replies: after a peer close (then user close or not) the bytes buffered BEFORE the close must still be reported by Len() and readable - with or without OnConnect set (fix D19), '
          'in every other cell "still buffered" is what the connection\'s own Len() reports after the close.',
     note='Exhaustive correspondence for the table; the theorems generalise over buffer contents. Teardown exactly-once under concurrency is C05; slot isolation is C10. Methods with deadlines set are outside the table. '
-         'No cell of the table sets an OnRequest handler (it would consume the input; unread input offered to a handler is recycled by the teardown).',
+         'In the handler modes the 10 input bytes start the handler and the cell says whether it leaves them unread (unread input offered to a handler is recycled by the teardown: there the reference for "still buffered" is the post-close Len()); a handler that returns after a peer close is called again until the input is consumed, so that cell does not exist. '
+         'The harness wraps (does not replace) runner.RunTask so that a task recovers its own panic and reports its end.',
     technique='Lean 4 theorems over a post-close model + exhaustive cell-by-cell correspondence with the real connection', design='§6 C12')
 
 READERS = ('next', 'peek', 'skip', 'rstr', 'rbin', 'rbyte', 'slice', 'read', 'until')
@@ -24,6 +25,8 @@ WRITERS = ('malloc', 'flush', 'ack', 'append', 'wstr', 'wbin', 'wdir', 'wbyte', 
 SHARDS = 8
 IN_BYTES = 10          # go/inpkg/closedh.go vcInBytes: what the harness lets the connection buffer (it waits until the connection's own Len() says so) before the close
 PEER_CLOSED = ('peer', 'peeruser')
+HANDLER_MODES = ('huser', 'huserp', 'hpeer', 'hpeerp', 'hpanic')   # the close goes through an OnRequest handler task (closedh.go vcHModes)
+EOF_MODES = ('peer', 'hpeer', 'hpeerp')                            # closed by the peer and not by the user afterwards
 
 def run_shard(binary, wd, i):
     os.makedirs(wd, exist_ok=True)
@@ -50,13 +53,15 @@ def oracle(cells):
     avail = {}
     for o, r in cells.items():
         t = o.split()
-        if t[7] == 'len' and t[9] == '1' and r.startswith('ok n:'):
-            avail[tuple(t[1:7])] = int(r.split()[1][2:])
+        if t[7] == 'len' and r.startswith('ok n:') and (t[9] == '1' or tuple(t[1:7]) not in avail):
+            avail[tuple(t[1:7])] = int(r.split()[1][2:])   # first call of the len cell (handler modes only have the called-twice cell)
     bad = []
     for o, r in cells.items():
         t = o.split(); mode, meth, arg = t[1], t[7], int(t[8])
         if r == 'stuck':
             bad.append((o, r, 'the cell never returned (a call or the clean-up of the bystander connection spins for ever)')); continue
+        if r.startswith('panic outside the calls'):
+            bad.append((o, r, 'a call of the harness around the cell (setting the state up, or closing the connections at the end) panicked')); continue
         if r.startswith('setup-failed'):
             bad.append((o, r, 'harness could not reach the state')); continue
         r0 = r.split(' B=')[0]
@@ -68,18 +73,18 @@ def oracle(cells):
                 bad.append((o, r, 'call %d %ss' % (k + 1, out))); break
             if meth in WRITERS and out != 'err closed':
                 bad.append((o, r, 'Writer call on a closed connection must return ErrConnClosed')); break
-            if meth == 'close' and out != 'ok':
-                bad.append((o, r, 'Close must be idempotent')); break
+            if meth in ('close', 'detach') and out != 'ok':
+                bad.append((o, r, '%s on a closed connection must return nil (Close is idempotent)' % meth.capitalize())); break
             if meth == 'isactive' and out != 'ok n:0':
                 bad.append((o, r, 'IsActive true after close')); break
-            peer_kept = mode in PEER_CLOSED   # with or without OnConnect: no cell of the table sets an OnRequest handler
+            peer_kept = mode in PEER_CLOSED   # with or without OnConnect; the handler modes (OnRequest set: input was offered to it) are judged by Len()
             if peer_kept and meth == 'len' and k == 0 and out != 'ok n:%d' % (IN_BYTES if t[3] == '1' else 0):
                 bad.append((o, r, 'Len() after the peer closed must still report the %d bytes that were buffered' % (IN_BYTES if t[3] == '1' else 0))); break
             if meth in READERS and k == 0:
                 have = (IN_BYTES if t[3] == '1' else 0) if peer_kept else avail.get(tuple(t[1:7]))
                 need = 1 if meth == 'rbyte' else (1 if meth == 'read' and arg > 0 else arg)
                 if meth == 'until' or have is None: continue
-                want_err = 'err eof' if mode == 'peer' else 'err closed'
+                want_err = 'err eof' if mode in EOF_MODES else 'err closed'
                 if need > have:
                     if out != want_err:
                         bad.append((o, r, 'short read must fail with %s (buffered %d)' % (want_err, have))); break
@@ -121,8 +126,8 @@ def run(rep):
     bad = oracle(cells)
     hist = collections.Counter(r.split(' B=')[0].split('|')[0].strip().split(':')[0] for r in cells.values())
     rep.cov.update(evaluations=len(cells), distinct_nontrivial=len(set((o.split()[1], o.split()[7], r) for o, r in cells.items())), exhaustive=not skipped,
-                   rule='every cell of {user, peer, peer-then-user, detach} x {no callback, OnConnect set} x {input empty, 10 bytes buffered} x {output empty, 5 bytes malloc\'ed} x {slot not reused, reused by a new connection} x {no read timeout, read timeout set and an earlier read timed out} '
-                        'x 23 methods x arguments (<= buffered, > buffered, 0; delimiter present/absent) x {once, twice}, on real connections (socketpair, real poller); distinct_nontrivial = distinct (mode, method, outcome) triples',
+                   rule='handler modes {handler closes, handler closes then panics, peer closes inside the handler, peer closes inside the handler which then panics, handler panics while active} x {input consumed, left unread} x {output empty, pending} x {slot not reused, reused} x 24 methods x {short, long argument} called twice; and every cell of {user, peer, peer-then-user, detach} x {no callback, OnConnect set} x {input empty, 10 bytes buffered} x {output empty, 5 bytes malloc\'ed} x {slot not reused, reused by a new connection} x {no read timeout, read timeout set and an earlier read timed out} '
+                        'x 24 methods (Detach included) x arguments (<= buffered, > buffered, 0; delimiter present/absent) x {once, twice}, on real connections (socketpair, real poller); distinct_nontrivial = distinct (mode, method, outcome) triples',
                    samples=[o + ' => ' + cells[o] for o in list(cells)[:3] + list(cells)[-2:]], outcome_histogram=dict(hist), traces_validated_against_impl=len(cells))
     if skipped: rep.notes.append('%d cells not executed: the harness stops a shard after 6 cells that hang or get stuck' % len(skipped))
     rep.assumptions += ['cells are executed after the close has completed (quiescent); concurrency of the close itself is C05',
